@@ -134,10 +134,37 @@ class RealRun:
         self.names = names
         self.s = zs.Settings(**{n: py(b) for n, b in zip(names, base)})
         self.cms = [[] for _ in range(nthreads)]
+        self.made = {}
 
     def opfn(self, t, op):
         s, names, cms = self.s, self.names, self.cms[t]
         kind = op[0]
+        made = self.made
+        if kind == "make":          # build the context manager without entering it: no effect on any read
+            opts = {names[int(k)]: py(v) for k, v in op[2]}
+
+            def f():
+                made[op[1]] = s(**opts)
+            return f
+        if kind == "enterm":        # enter a context manager built earlier (possibly by the other thread)
+            def f():
+                cm = made.pop(op[1])
+                cm.__enter__()
+                cms.append(cm)
+            return f
+        if kind == "enterbad":      # valid options followed by an unknown one: AttributeError, nothing overridden
+            opts = {names[int(k)]: py(v) for k, v in op[1]}
+            opts["no_such_option_"] = 1
+
+            def f():
+                cm = s(**opts)
+                try:
+                    cm.__enter__()
+                except AttributeError:
+                    return
+                cms.append(cm)
+                raise AssertionError("a settings block with an unknown option was entered")
+            return f
         if kind == "enter":
             opts = {names[int(k)]: py(v) for k, v in op[1]}
 
@@ -172,6 +199,14 @@ class RealRun:
 def events_of(t, op, open_blocks):
     """primitive model events of one op of thread t (open_blocks: list of option-count per open block)"""
     kind = op[0]
+    if kind == "make":
+        return []
+    if kind == "enterbad":     # the valid options are applied, the unknown one raises, the applied ones are rolled back
+        n = len(op[1])
+        return [[t, "push"]] + [[t, "set", int(k), v] for k, v in op[1]] + [[t, "restore"]] * n + [[t, "pop"]]
+    if kind == "enterm":
+        open_blocks.append(len(op[2]))
+        return [[t, "push"]] + [[t, "set", int(k), v] for k, v in op[2]]
     if kind == "enter":
         open_blocks.append(len(op[1]))
         return [[t, "push"]] + [[t, "set", int(k), v] for k, v in op[1]]
@@ -195,6 +230,10 @@ def spec_reads(base, linear):
         kind = op[0]
         if kind == "enter":
             st.append({int(k): v for k, v in op[1]})
+        elif kind == "enterm":
+            st.append({int(k): v for k, v in op[2]})
+        elif kind in ("make", "enterbad"):
+            pass
         elif kind in ("exit", "exitx"):
             st.pop()
         elif kind == "assign":
@@ -250,7 +289,7 @@ def run_real(pool, names, case):
     # fine-grained: ops of different threads overlap; the case carries, for each linear position, how
     # many line-steps the *other* thread's next op is advanced before this op completes.
     zs, _ = _zeep()
-    code = zs.Settings.__call__.__wrapped__.__code__
+    code = getattr(zs.Settings.__call__, "__wrapped__", zs.Settings.__call__).__code__
     pending = {}      # thread -> (op) in flight
     rng_steps = case["fine_steps"]
     i = 0
@@ -278,7 +317,7 @@ def run_real(pool, names, case):
         if t not in active:
             op = queue_per_thread[t][pos[t]]
             pos[t] += 1
-            w.fine = op[0] in ("enter", "exit", "exitx")
+            w.fine = op[0] in ("enter", "enterm", "enterbad", "exit", "exitx")
             w.code = code
             w.submit(rr.opfn(t, op))
             active[t] = op
@@ -374,12 +413,53 @@ def nontrivial(case):
         d = 0
         for op in p:
             kinds.add(op[0])
-            if op[0] == "enter":
+            if op[0] in ("enter", "enterm"):
                 d += 1
                 maxd = max(maxd, d)
             elif op[0] in ("exit", "exitx"):
                 d -= 1
-    return "enter" in kinds and len(kinds) >= 2
+    return ("enter" in kinds or "enterm" in kinds or "enterbad" in kinds) and len(kinds) >= 2
+
+
+def split_enter_cases(ctx, n, short):
+    rng = ctx.rng
+    out = []
+    hs = [h for h in short if any(o[0] == "enter" for o in h)]
+    picks = hs if ctx.tier == "thorough" or ctx.budget > 1 else [hs[i] for i in range(0, len(hs), max(1, len(hs) // 120))]
+    for hi, h in enumerate(picks):
+        a, b = rng.sample(range(n), 2)
+        vp = VPAIRS[hi % len(VPAIRS)]
+        bk = BASES[hi % len(BASES)]
+        ren, vren = {0: a, 1: b}, {0: vp[0], 1: vp[1]}
+        hr = rename(h, ren, vren)
+        # (i) same thread: make, then enter
+        prog, slot = [], 0
+        for op in hr:
+            if op[0] == "enter":
+                prog += [["make", slot, op[1]], ["enterm", slot, op[1]]]
+                slot += 1
+            else:
+                prog.append(op)
+        prog.append(["make", slot, [[a, vp[1]]]])          # built and dropped
+        out.append(dict(base=make_base(n, bk), progs=[prog], schedule=[0] * len(prog), tracked=[a, b]))
+        # (ii) built by thread 1, entered by thread 0
+        p0, p1, sched, slot = [], [], [], 0
+        for op in hr:
+            if op[0] == "enter":
+                p1.append(["make", slot, op[1]])
+                sched.append(1)
+                p0.append(["enterm", slot, op[1]])
+                sched.append(0)
+                slot += 1
+            else:
+                p0.append(op)
+                sched.append(0)
+        out.append(dict(base=make_base(n, bk), progs=[p0, p1], schedule=sched, tracked=[a, b]))
+        # (iii) a failing entry (unknown option after valid ones) before, inside and after the blocks
+        for pos in sorted({0, len(hr) // 2, len(hr)}):
+            prog = hr[:pos] + [["enterbad", [[a, vp[1]], [b, vp[0]]]]] + hr[pos:]
+            out.append(dict(base=make_base(n, bk), progs=[prog], schedule=[0] * len(prog), tracked=[a, b]))
+    return out
 
 
 def check_cases(ctx, res, names, cases, pool):
@@ -397,7 +477,7 @@ def check_cases(ctx, res, names, cases, pool):
             reads, errors = run_real(pool, names, case)
             exp = spec_reads(case["base"], lin)
             mexp = mo["ok"]["reads"] if mo and "ok" in mo else None
-        depth = max((sum(1 for o in p if o[0] == "enter") for p in case["progs"]), default=0)
+        depth = max((sum(1 for o in p if o[0] in ("enter", "enterm")) for p in case["progs"]), default=0)
         res.case(key=(case["progs"], case["schedule"], case.get("fine_picks")), nontrivial=nontrivial(case))
         res.count("threads=%d" % len(case["progs"]))
         res.count("fine" if case.get("fine") else "coarse")
@@ -598,6 +678,12 @@ def run(ctx):
             batch.append(dict(base=make_base(n, bk), progs=[rename(h0, ren, vren), rename(h1, ren, vren)],
                               schedule=sched, tracked=[a, b], fine=True, fine_picks=picks, fine_steps=[]))
         res.extra["line_granularity_runs"] = len(batch)
+        check_cases(ctx, res, names, batch, pool)
+        # 3b. building a block is not entering it: every `enter` split into make + enterm (reads in between), a block
+        #     built and never entered, a block built by one thread and entered by the other, and entries that fail on
+        #     an unknown option after valid ones
+        batch = split_enter_cases(ctx, n, short)
+        res.extra["split_enter_runs"] = len(batch)
         check_cases(ctx, res, names, batch, pool)
         # 4. Transport.settings
         transport_cases(ctx, res, ctx.n(4, 5))
